@@ -423,7 +423,7 @@ func (c *Ctx) runVarintTrace(n int) {
 		os.MkdirAll(filepath.Dir(keep), 0o755)
 		copyFile(path, keep)
 		c.report(&Violation{Pipeline: "varint-trace", Case: map[string]interface{}{"trace_file": keep, "line": lineNo}, Step: lineNo,
-			What: fmt.Sprintf("bytes produced by a real encoder (or its size function) differ from Varint.tla at trace line %d", lineNo),
+			What:   fmt.Sprintf("bytes produced by a real encoder (or its size function) differ from Varint.tla at trace line %d", lineNo),
 			Actual: json.RawMessage(nthLine(path, lineNo)), Tags: map[string]string{"outcome": "trace-rejected"}})
 	} else if res.Distinct != int64(lines)+1 {
 		infraFail("Gen_Varint trace consumed %d of %d lines\n%s", res.Distinct-1, lines, res.Output)
